@@ -268,6 +268,20 @@ func (in *inst) rewriteStmt(s ast.Stmt) []ast.Stmt {
 		return in.rewriteGo(st)
 	case *ast.DeferStmt:
 		in.funcLits(st.Call)
+		// defer close(ch): the close is an operation the scheduler has to see (the channel is evaluated now, as the language does)
+		if id, ok := st.Call.Fun.(*ast.Ident); ok && id.Name == "close" && len(st.Call.Args) == 1 {
+			if _, isBuiltin := in.pkg.TypesInfo.Uses[id].(*types.Builtin); isBuiltin {
+				c := in.tmp("c")
+				lit := &ast.FuncLit{Type: &ast.FuncType{Params: &ast.FieldList{}}, Body: &ast.BlockStmt{List: []ast.Stmt{
+					stmt(call("Pre", kind("KClose"), c)),
+					stmt(&ast.CallExpr{Fun: ast.NewIdent("close"), Args: []ast.Expr{c}}),
+				}}}
+				return []ast.Stmt{
+					&ast.AssignStmt{Lhs: []ast.Expr{c}, Tok: token.DEFINE, Rhs: []ast.Expr{st.Call.Args[0]}},
+					&ast.DeferStmt{Call: &ast.CallExpr{Fun: lit}},
+				}
+			}
+		}
 		return []ast.Stmt{st}
 	case *ast.ExprStmt:
 		if c, ok := st.X.(*ast.CallExpr); ok {
